@@ -6,49 +6,63 @@ Local Open Scope N_scope.
 Ltac Zify.zify_post_hook ::= Z.div_mod_to_equations.
 
 (* ---------- what a served answer is ------------------------------------------------ *)
-Lemma served_master cfg st k op now delay u st' r :
-  inv cfg st -> step cfg st (EQuery k op now delay u) = Ok (st', OServed r) ->
+Definition lookup_failed (cfg : config) (st : state) (k : key) : Prop :=
+  exists c e, cache_lookup cfg k (s_cache st) = Ok (c, LFail e).
+
+(* Three ways to be answered without upstream: (1) a fresh entry, aged;
+   (2) a fresh entry that cannot be rebuilt because a record does not parse:
+   the parse error is returned in its place; (3) the cascade itself failed on
+   such an entry (only while T1 says strip_failure_is_miss = false). *)
+Definition served_fresh cfg st k now r : Prop :=
   exists k0 t0 u0 x val,
     In (k0, t0, u0) (s_log st) /\ compat k0 k x u0 /\
     validity cfg (xform_resp x u0) = Ok val /\
     expired (now - t0) val = false /\
-    decrement_ttl (xform_resp x u0) (cast_secs (now - t0)) = Ok r /\
-    op = 0 /\ k_class k = class_in.
+    (decrement_ttl (xform_resp x u0) (cast_secs (now - t0)) = Ok r \/
+     (r = RErr parse_error /\ resp_has_bad (xform_resp x u0) = true)).
+
+Lemma served_master cfg st k op now delay u st' r :
+  inv cfg st -> step cfg st (EQuery k op now delay u) = Ok (st', OServed r) ->
+  op = 0 /\ k_class k = class_in /\
+  (served_fresh cfg st k now r \/
+   (lookup_failed cfg st k /\ exists e, r = RErr e /\ fail_post (s_log st) k e)).
 Proof.
   intros I. cbn [step].
   destruct (negb ((op =? 0) && (k_class k =? class_in))) eqn:B; [discriminate|].
   apply negb_false_iff, andb_true_iff in B. destruct B as [B1 B2].
-  apply N.eqb_eq in B1, B2.
-  destruct (cache_lookup cfg k (s_cache st)) as [[c1 ov]| | |] eqn:LK; cbn [bind]; try discriminate.
+  apply N.eqb_eq in B1, B2. intros S; split; [exact B1|]; split; [exact B2|]; revert S.
+  destruct (cache_lookup cfg k (s_cache st)) as [[c1 res]| | |] eqn:LK; cbn [bind]; try discriminate.
   destruct (lookup_rd_do_ad_inv cfg _ k _ _ I LK) as [_ P]; cbn [snd] in P.
-  destruct ov as [v|].
+  assert (Hno : match validity cfg u with
+       | Ok val => do c2 <- cache_insert cfg k (mkValue (now + delay) val u) c1;
+                   Ok (mkState c2 ((k, now + delay, u) :: s_log st), OForwarded)
+       | Err e => Ok (mkState c1 ((k, now + delay, u) :: s_log st), OFwdErr e)
+       | Panic p => Panic p | OutOfFuel => OutOfFuel end <> Ok (st', OServed r)).
+  { destruct (validity cfg u); try discriminate.
+    destruct (cache_insert cfg k _ c1); cbn [bind]; discriminate. }
+  destruct res as [v| |e].
   - unfold get_response, elapsed_ms.
-    destruct (expired (now - v_created v) (v_valid v)) eqn:E.
-    + destruct (validity cfg u); cbn [bind]; try discriminate.
-      destruct (cache_insert cfg k _ c1); cbn [bind]; discriminate.
-    + destruct (decrement_ttl (v_resp v) (cast_secs (now - v_created v))) as [s| | |] eqn:D;
-        cbn [bind]; try discriminate.
-      intros [= _ <-].
-      destruct (P v eq_refl) as (k0 & t0 & u0 & x & Hin & Hc & Hr & Hk & Hv).
-      exists k0, t0, u0, x, (v_valid v). subst t0. rewrite <- Hr.
-      repeat (split; [assumption|]). assumption.
-  - destruct (validity cfg u); cbn [bind]; try discriminate.
-    destruct (cache_insert cfg k _ c1); cbn [bind]; discriminate.
+    destruct (expired (now - v_created v) (v_valid v)) eqn:E; [intros H0; destruct (Hno H0)|].
+    destruct P as (k0 & t0 & u0 & x & Hin & Hc & Hr & Hk & Hv). subst t0.
+    assert (Hb : forall m, v_resp v = RMsg m -> forall y, counted m y ->
+                 cast_secs (now - v_created v) <= r_ttl y).
+    { intros m Hm y Hy. rewrite Hm in Hv. destruct (validity_msg_bound _ _ _ Hv) as [Bt _].
+      specialize (Bt _ Hy). apply not_expired_le in E.
+      pose proof (cast_secs_le (now - v_created v)). lia. }
+    destruct (decrement_cases _ _ Hb) as [[D _]|[D Bd]]; rewrite D; intros [= _ <-]; left;
+      exists k0, (v_created v), u0, x, (v_valid v); rewrite <- Hr;
+      (split; [exact Hin|]); (split; [exact Hk|]); (split; [exact Hv|]); (split; [exact E|]).
+    + left; exact D.
+    + right; auto.
+  - intros H0; destruct (Hno H0).
+  - intros [= _ <-]. right. split; [exists c1, e; exact LK|]. exists e. auto.
 Qed.
 
 Lemma store_invariant cfg evs st os : run cfg state_init evs = Ok (st, os) -> inv cfg st.
 Proof. intros R. exact (run_inv cfg evs _ _ _ (inv_init cfg) R). Qed.
 
 (* ---------- 1. served_was_received ---------------------------------------------------- *)
-Definition same_question (k0 k : key) : Prop :=
-  k_name k0 = k_name k /\ k_class k0 = k_class k /\ k_type k0 = k_type k.
-
-(* the upstream request carried at least the flags of the served one:
-   CD equal; RD=1 only from RD=1; DO only from DO; AD only from AD or DO *)
-Definition flags_compatible (k0 k : key) : Prop :=
-  k_cd k0 = k_cd k /\ (k_rd k = true -> k_rd k0 = true) /\
-  (k_addo k = AdDo_Do -> k_addo k0 = AdDo_Do) /\ (k_addo k = AdDo_Ad -> k_addo k0 <> AdDo_None).
-
+(* same_question, flags_compatible: ProofsInv.v *)
 Definition rr_from (r0 r : rr) : Prop :=
   r_type r = r_type r0 /\ r_class r = r_class r0 /\ r_id r = r_id r0 /\ r_ttl r <= r_ttl r0.
 
@@ -59,9 +73,11 @@ Definition sec_from (l0 l : list rr) : Prop :=
 Definition derives (u0 r : resp) : Prop :=
   match u0, r with
   | RErr e0, RErr e => e = e0
+  | RMsg m0, RErr e => e = parse_error /\ has_bad m0 = true   (* the message could not be rebuilt *)
   | RMsg m0, RMsg m =>
       m_rcode m = m_rcode m0 /\ m_tc m = m_tc m0 /\ m_q m = m_q m0 /\
       (m_ad m = true -> m_ad m0 = true) /\ (m_rd m = true -> m_rd m0 = true) /\
+      m_id m = m_id m0 /\
       sec_from (m_an m0) (m_an m) /\ sec_from (m_ns m0) (m_ns m) /\ sec_from (m_ar m0) (m_ar m)
   | _, _ => False
   end.
@@ -104,12 +120,33 @@ Proof.
   - apply (sec_from_age_opt a (x_strip x)).
 Qed.
 
-Lemma compat_question k0 k x u : compat k0 k x u -> same_question k0 k /\ flags_compatible k0 k.
-Proof. unfold compat, same_question, flags_compatible; tauto. Qed.
-
 Lemma run_init_logged cfg evs st os e :
   run cfg state_init evs = Ok (st, os) -> In e (s_log st) -> logged evs os e.
 Proof. intros R H. destruct (run_log cfg evs _ _ _ e R H) as [[]|L]; exact L. Qed.
+
+Lemma bad_source x u0 : resp_has_bad (xform_resp x u0) = true ->
+  exists m0, u0 = RMsg m0 /\ has_bad m0 = true.
+Proof.
+  destruct u0 as [m0|e0]; cbn; [|discriminate]. intros H. exists m0. split; [reflexivity|].
+  apply (has_bad_xform x); exact H.
+Qed.
+
+(* the common core: whatever is answered without upstream comes from a logged
+   upstream exchange for the same question with compatible flags *)
+Lemma served_source cfg st k op now delay u st' r :
+  inv cfg st -> step cfg st (EQuery k op now delay u) = Ok (st', OServed r) ->
+  exists k0 t0 u0,
+    In (k0, t0, u0) (s_log st) /\ same_question k0 k /\ flags_compatible k0 k /\ derives u0 r.
+Proof.
+  intros I S. destruct (served_master _ _ _ _ _ _ _ _ _ I S) as (_ & _ & [F|[_ (e & -> & F)]]).
+  - destruct F as (k0 & t0 & u0 & x & val & Hin & Hk & _ & _ & [D|[-> B]]);
+      exists k0, t0, u0; (split; [exact Hin|]);
+      destruct (compat_question _ _ _ _ Hk) as [Q Fl]; (split; [exact Q|]); (split; [exact Fl|]).
+    + apply decrement_ok in D. destruct D as (-> & _). apply derives_aged.
+    + destruct (bad_source _ _ B) as (m0 & -> & B0). cbn. auto.
+  - destruct F as (_ & -> & k0 & t0 & m0 & Hin & Q & Fl & B).
+    exists k0, t0, (RMsg m0). cbn. auto.
+Qed.
 
 Lemma served_was_received cfg evs st os k op now delay u st' r :
   run cfg state_init evs = Ok (st, os) ->
@@ -118,10 +155,8 @@ Lemma served_was_received cfg evs st os k op now delay u st' r :
     logged evs os (k0, t0, u0) /\ same_question k0 k /\ flags_compatible k0 k /\ derives u0 r.
 Proof.
   intros R S. pose proof (run_inv cfg evs _ _ _ (inv_init cfg) R) as I.
-  destruct (served_master _ _ _ _ _ _ _ _ _ I S) as (k0 & t0 & u0 & x & val & Hin & Hk & _ & _ & D & _).
-  exists k0, t0, u0. split; [eapply run_init_logged; eassumption|].
-  destruct (compat_question _ _ _ _ Hk) as [Q F]. split; [exact Q|]. split; [exact F|].
-  apply decrement_ok in D. destruct D as [-> _]. apply derives_aged.
+  destruct (served_source _ _ _ _ _ _ _ _ _ I S) as (k0 & t0 & u0 & Hin & Q & F & D).
+  exists k0, t0, u0. split; [eapply run_init_logged; eassumption|auto].
 Qed.
 
 (* ---------- 2. ttl_aged_never_increased ------------------------------------------------- *)
@@ -140,6 +175,7 @@ Definition resp_aged (secs : N) (u0 r : resp) : Prop :=
       sec_aged secs false (m_an m0) (m_an m) /\ sec_aged secs false (m_ns m0) (m_ns m) /\
       sec_aged secs true (m_ar m0) (m_ar m)
   | RErr _, RErr _ => True
+  | RMsg m0, RErr e => e = parse_error /\ has_bad m0 = true
   | _, _ => False
   end.
 
@@ -161,10 +197,14 @@ Lemma ttl_aged cfg evs st os k op now delay u st' r :
     logged evs os (k0, t0, u0) /\ same_question k0 k /\ resp_aged ((now - t0) / 1000) u0 r.
 Proof.
   intros C R S. pose proof (run_inv cfg evs _ _ _ (inv_init cfg) R) as I.
-  destruct (served_master _ _ _ _ _ _ _ _ _ I S) as (k0 & t0 & u0 & x & val & Hin & Hk & V & E & D & _).
-  exists k0, t0, u0. split; [eapply run_init_logged; eassumption|].
-  split; [apply (compat_question _ _ _ _ Hk)|].
-  apply decrement_ok in D. destruct D as [-> B].
+  destruct (served_master _ _ _ _ _ _ _ _ _ I S) as (_ & _ & [F|[_ (e & -> & F)]]).
+  2:{ destruct F as (_ & -> & k0 & t0 & m0 & Hin & Q & _ & B).
+      exists k0, t0, (RMsg m0). split; [eapply run_init_logged; eassumption|]. cbn. auto. }
+  destruct F as (k0 & t0 & u0 & x & val & Hin & Hk & V & E & [D|[-> B]]);
+    exists k0, t0, u0; (split; [eapply run_init_logged; eassumption|]);
+    (split; [apply (compat_question _ _ _ _ Hk)|]).
+  2:{ destruct (bad_source _ _ B) as (m0 & -> & B0). cbn. auto. }
+  apply decrement_ok in D. destruct D as (-> & _ & B).
   destruct u0 as [m0|e0]; cbn [xform_resp map_resp aged resp_aged]; [|exact Logic.I].
   destruct (elapsed_secs_bound cfg x m0 val _ C V E) as [Hs _]. rewrite Hs in *.
   specialize (B _ eq_refl). set (secs := (now - t0) / 1000) in *.
@@ -212,9 +252,13 @@ Qed.
 (* the bound that applies to a served answer, read off the answer itself *)
 Definition within (elapsed_ms bound_s : N) : Prop := elapsed_ms <= bound_s * 1000.
 
-Definition fresh_by_class (cfg : config) (e : N) (r : resp) : Prop :=
+Definition fresh_by_class (cfg : config) (e : N) (u0 r : resp) : Prop :=
   match r with
-  | RErr _ => within e (c_tf cfg)
+  | RErr _ =>
+      match u0 with
+      | RErr _ => within e (c_tf cfg)      (* a cached transport failure *)
+      | RMsg _ => within e (c_maxv cfg)    (* the parse error standing for a fresh entry *)
+      end
   | RMsg m =>
       within e (c_maxv cfg) /\
       (m_rcode m = 3 -> within e (c_nx cfg)) /\
@@ -244,19 +288,27 @@ Proof.
   - destruct p as [[]|[]|]; intros [= <-]; repeat split; try discriminate; try congruence; intros; lia.
 Qed.
 
+(* The known class: the cascade failed while rewriting an entry.  Its age is
+   never looked at, so such a parse error can be handed out long after the
+   entry's validity has passed (never_stale_refuted). *)
 Lemma never_stale cfg evs st os k op now delay u st' r :
   cfg_ok cfg ->
   run cfg state_init evs = Ok (st, os) ->
+  ~ lookup_failed cfg st k ->
   step cfg st (EQuery k op now delay u) = Ok (st', OServed r) ->
   exists k0 t0 u0,
     logged evs os (k0, t0, u0) /\ same_question k0 k /\ derives u0 r /\
-    fresh_by_class cfg (now - t0) r.
+    fresh_by_class cfg (now - t0) u0 r.
 Proof.
-  intros C R S. pose proof (run_inv cfg evs _ _ _ (inv_init cfg) R) as I.
-  destruct (served_master _ _ _ _ _ _ _ _ _ I S) as (k0 & t0 & u0 & x & val & Hin & Hk & V & E & D & _).
-  exists k0, t0, u0. split; [eapply run_init_logged; eassumption|].
-  split; [apply (compat_question _ _ _ _ Hk)|].
-  apply decrement_ok in D. destruct D as [-> B]. split; [apply derives_aged|].
+  intros C R NF S. pose proof (run_inv cfg evs _ _ _ (inv_init cfg) R) as I.
+  destruct (served_master _ _ _ _ _ _ _ _ _ I S) as (_ & _ & [F|[LF _]]); [|destruct (NF LF)].
+  destruct F as (k0 & t0 & u0 & x & val & Hin & Hk & V & E & [D|[-> B]]);
+    exists k0, t0, u0; (split; [eapply run_init_logged; eassumption|]);
+    (split; [apply (compat_question _ _ _ _ Hk)|]).
+  2:{ destruct (bad_source _ _ B) as (m0 & -> & B0). split; [cbn; auto|].
+      cbn [fresh_by_class]. apply not_expired_le in E. cbn [xform_resp map_resp] in V.
+      apply validity_le_maxv in V. unfold within. lia. }
+  apply decrement_ok in D. destruct D as (-> & _ & B). split; [apply derives_aged|].
   destruct u0 as [m0|e0]; cbn [xform_resp map_resp aged fresh_by_class].
   - destruct (elapsed_secs_bound cfg x m0 val _ C V E) as [Hs Hle]. rewrite Hs in *.
     specialize (B _ eq_refl). apply not_expired_le in E. set (e := now - t0) in *.
@@ -290,6 +342,40 @@ Proof.
       * apply Hcnt.
   - apply not_expired_le in E. cbn [xform_resp map_resp validity] in V. rewrite gen_cap_failure in V.
     injection V as <-. exact E.
+Qed.
+
+(* after the fix (T1: strip_failure_is_miss = true) the excluded class is empty *)
+Lemma lookup_failed_only_before_fix cfg evs st os k :
+  strip_failure_is_miss = true -> run cfg state_init evs = Ok (st, os) -> ~ lookup_failed cfg st k.
+Proof.
+  intros F R (c & e & H). pose proof (run_inv cfg evs _ _ _ (inv_init cfg) R) as I.
+  exact (lookup_never_fails cfg _ k _ c e F I H).
+Qed.
+
+(* witness: an answer to a DO request with one unparsable record, valid for
+   60 s; a request without DO a million seconds later gets MessageParseError
+   from the cache, upstream is not asked *)
+Definition witness_stale_bad : resp :=
+  RMsg (mkMsg 7 0 false false true false (Some (1, 1)) [mkRR 1 1 60 1 false; mkRR 1 1 60 2 true] [] [] false).
+Definition witness_stale : list event :=
+  [EQuery (key_of_request 1 1 1 true false false true) 0 0 0 witness_stale_bad].
+Definition witness_stale_query : event :=
+  EQuery (key_of_request 1 1 1 true false false false) 0 1000000000 0 (RErr 1).
+
+Lemma never_stale_refuted : strip_failure_is_miss = false ->
+  validity config_default witness_stale_bad = Ok 60 /\
+  exists st os st',
+    run config_default state_init witness_stale = Ok (st, os) /\
+    lookup_failed config_default st (key_of_request 1 1 1 true false false false) /\
+    step config_default st witness_stale_query = Ok (st', OServed (RErr parse_error)).
+Proof.
+  intros F.
+  (* once the fix is in, T1 makes the premise false *)
+  first
+    [ solve [exfalso; vm_compute in F; discriminate F]
+    | solve [split; [vm_compute; reflexivity|];
+             do 3 eexists; split; [lazy; reflexivity|];
+             split; [do 2 eexists; lazy; reflexivity|lazy; reflexivity]] ].
 Qed.
 
 (* classification does not change when DNSSEC records are stripped for a
@@ -330,11 +416,12 @@ Definition ev_ok (ev : event) : Prop :=
   | EEvict _ => True
   end.
 
-Lemma validity_total cfg u : (classify_expects_question = true -> ~ no_question u) ->
-  exists v, validity cfg u = Ok v.
+Lemma validity_cases cfg u : (classify_expects_question = true -> ~ no_question u) ->
+  (exists v, validity cfg u = Ok v) \/ validity cfg u = Err parse_error.
 Proof.
   intros H. destruct u as [m|e]; [|cbn; eauto].
   unfold validity. destruct (m_tc m && negb (c_trunc cfg)); [eauto|].
+  destruct (m_broken m); [right; reflexivity|]. left.
   unfold class_cap. destruct (m_rcode m) as [|p].
   - unfold classify_no_error. destruct (m_q m) as [[qt qc]|] eqn:Q.
     + destruct (existsb _ (m_an m)); cbn [bind]; eauto.
@@ -347,21 +434,25 @@ Lemma step_total cfg st ev : inv cfg st -> ev_ok ev -> exists r, step cfg st ev 
 Proof.
   intros I Hev. destruct ev as [k op now delay u|n]; cbn [step]; [|eauto].
   destruct (negb ((op =? 0) && (k_class k =? class_in))); [eauto|].
-  destruct (lookup_total cfg _ k _ I) as [[c1 ov] LK]. rewrite LK; cbn [bind].
+  destruct (lookup_total cfg _ k _ I) as [[c1 res] LK]. rewrite LK; cbn [bind].
   destruct (lookup_rd_do_ad_inv cfg _ k _ _ I LK) as [I1 P]; cbn [fst snd] in I1, P.
-  assert (Hfwd : exists r, (do val <- validity cfg u;
-            do c2 <- cache_insert cfg k (mkValue (now + delay) val u) c1;
-            Ok (mkState c2 ((k, now + delay, u) :: s_log st), OForwarded)) = Ok r).
-  { destruct (validity_total cfg u Hev) as [val V]. rewrite V; cbn [bind].
+  assert (Hfwd : exists r, match validity cfg u with
+       | Ok val => do c2 <- cache_insert cfg k (mkValue (now + delay) val u) c1;
+                   Ok (mkState c2 ((k, now + delay, u) :: s_log st), OForwarded)
+       | Err e => Ok (mkState c1 ((k, now + delay, u) :: s_log st), OFwdErr e)
+       | Panic p => Panic p | OutOfFuel => OutOfFuel end = Ok r).
+  { destruct (validity_cases cfg u Hev) as [[val V]|V]; rewrite V; [|eauto].
     destruct (cache_insert_total cfg k (mkValue (now + delay) val u) c1) as [c2 ->]; [cbn; eauto|].
     cbn [bind]. eauto. }
-  destruct ov as [v|]; [|exact Hfwd].
+  destruct res as [v| |e]; [|exact Hfwd|eauto].
   unfold get_response, elapsed_ms.
   destruct (expired (now - v_created v) (v_valid v)) eqn:E; [exact Hfwd|].
-  rewrite decrement_total; [cbn [bind]; eauto|].
-  intros m Hm x Hx. pose proof (prov_valid _ _ _ _ (P v eq_refl)) as V. rewrite Hm in V.
-  destruct (validity_msg_bound _ _ _ V) as [Bt _]. specialize (Bt _ Hx).
-  apply not_expired_le in E. pose proof (cast_secs_le (now - v_created v)). lia.
+  assert (Hb : forall m, v_resp v = RMsg m -> forall y, counted m y ->
+               cast_secs (now - v_created v) <= r_ttl y).
+  { intros m Hm y Hy. pose proof (prov_valid _ _ _ _ P) as V. rewrite Hm in V.
+    destruct (validity_msg_bound _ _ _ V) as [Bt _]. specialize (Bt _ Hy).
+    apply not_expired_le in E. pose proof (cast_secs_le (now - v_created v)). lia. }
+  destruct (decrement_cases _ _ Hb) as [[-> _]|[-> _]]; eauto.
 Qed.
 
 Lemma run_total cfg evs : forall st, inv cfg st -> Forall ev_ok evs ->
@@ -379,16 +470,28 @@ Proof.
   destruct (run_total cfg evs state_init (inv_init cfg) F) as [[st os] R]. rewrite R. cbn. eauto.
 Qed.
 
+(* the expect() is gone from classify_no_error (T1), so there is no premise left *)
+Lemma gen_no_expect : classify_expects_question = false. Proof. reflexivity. Qed.
+
+Lemma no_panic_unconditional cfg evs : exists os, c20_run cfg evs = Ok os.
+Proof.
+  apply no_panic_all_histories. apply Forall_forall. intros ev _.
+  destruct ev; cbn; [|exact Logic.I]. rewrite gen_no_expect. discriminate.
+Qed.
+
 Definition witness_no_question : list event :=
   [EQuery (mkKey 1 1 1 AdDo_None false true) 0 0 0
-     (RMsg (mkMsg 0 false false true false None [mkRR 1 1 60 7] [] []))].
+     (RMsg (mkMsg 7 0 false false true false None [mkRR 1 1 60 7 false] [] [] false))].
 
 Lemma no_panic_refuted : classify_expects_question = true ->
   ~ Forall ev_ok witness_no_question /\ c20_run config_default witness_no_question = Panic 1.
 Proof.
-  intros H. split.
-  - intros F. inversion F as [|? ? He _]; subst. apply (He H). eexists; split; reflexivity.
-  - (vm_compute; reflexivity) || (vm_compute in H; discriminate H).
+  intros H.
+  first
+    [ solve [exfalso; vm_compute in H; discriminate H]
+    | solve [split;
+             [intros F; inversion F as [|? ? He _]; subst; apply (He H); eexists; split; reflexivity
+             |vm_compute; reflexivity]] ].
 Qed.
 
 (* ---------- 5. no_dnssec_leak --------------------------------------------------------------------- *)
@@ -440,10 +543,14 @@ Lemma no_dnssec_leak cfg evs st os k op now delay u st' r :
     (k_addo k = AdDo_None -> k_addo k0 <> AdDo_None -> resp_ad r = false).
 Proof.
   intros R S. pose proof (run_inv cfg evs _ _ _ (inv_init cfg) R) as I.
-  destruct (served_master _ _ _ _ _ _ _ _ _ I S) as (k0 & t0 & u0 & x & val & Hin & Hk & _ & _ & D & _).
-  exists k0, t0, u0. split; [eapply run_init_logged; eassumption|].
-  destruct (compat_question _ _ _ _ Hk) as [Q F]. split; [exact Q|]. split; [exact F|].
-  apply decrement_ok in D. destruct D as [-> _]. split; [apply derives_aged|].
+  destruct (served_master _ _ _ _ _ _ _ _ _ I S) as (_ & _ & [F|[_ (e & -> & F)]]).
+  2:{ destruct F as (_ & -> & k0 & t0 & m0 & Hin & Q & Fl & B).
+      exists k0, t0, (RMsg m0). split; [eapply run_init_logged; eassumption|]. cbn. auto 10. }
+  destruct F as (k0 & t0 & u0 & x & val & Hin & Hk & _ & _ & [D|[-> B]]);
+    exists k0, t0, u0; (split; [eapply run_init_logged; eassumption|]);
+    destruct (compat_question _ _ _ _ Hk) as [Q Fl]; (split; [exact Q|]); (split; [exact Fl|]).
+  2:{ destruct (bad_source _ _ B) as (m0 & -> & B0). cbn. auto 10. }
+  apply decrement_ok in D. destruct D as (-> & _ & _). split; [apply derives_aged|].
   destruct Hk as (_ & _ & _ & _ & _ & _ & _ & _ & _ & _ & H11 & H12).
   split.
   - intros Hn Hd. specialize (H11 Hd Hn).
@@ -463,8 +570,11 @@ Lemma no_leak_honest_upstream cfg evs st os k op now delay u st' r :
   (k_addo k <> AdDo_Do -> no_dnssec r) /\ (k_addo k = AdDo_None -> resp_ad r = false).
 Proof.
   intros R W S. pose proof (run_inv cfg evs _ _ _ (inv_init cfg) R) as I.
-  destruct (served_master _ _ _ _ _ _ _ _ _ I S) as (k0 & t0 & u0 & x & val & Hin & Hk & _ & _ & D & _).
-  apply decrement_ok in D. destruct D as [-> _].
+  destruct (served_master _ _ _ _ _ _ _ _ _ I S) as (_ & _ & [F|[_ (e & -> & _)]]);
+    [|split; intros; [exact Logic.I|reflexivity]].
+  destruct F as (k0 & t0 & u0 & x & val & Hin & Hk & _ & _ & [D|[-> _]]);
+    [|split; intros; [exact Logic.I|reflexivity]].
+  apply decrement_ok in D. destruct D as (-> & _ & _).
   destruct Hk as (_ & _ & _ & _ & _ & H6 & H7 & _ & _ & _ & H11 & H12).
   destruct u0 as [m0|e0]; [|split; intros; [exact Logic.I|reflexivity]].
   destruct (W _ _ _ Hin) as [W1 W2].
@@ -512,8 +622,11 @@ Proof.
   cbn [bind]. unfold get_response, elapsed_ms. rewrite Hb.
   assert (E : expired (v_valid v * 1000) (v_valid v) = false).
   { unfold expired. change expired_is_gt with true. cbn. lia. }
-  rewrite E. rewrite decrement_total; [cbn [bind]; eauto|].
-  intros m Hm x Hx. pose proof (prov_valid _ _ _ _ (I _ _ (cget_In _ _ _ G))) as V. rewrite Hm in V.
-  destruct (validity_msg_bound _ _ _ V) as [Bt _]. specialize (Bt _ Hx).
-  pose proof (cast_secs_le (v_valid v * 1000)). lia.
+  rewrite E.
+  assert (Hd : forall m, v_resp v = RMsg m -> forall y, counted m y ->
+               cast_secs (v_valid v * 1000) <= r_ttl y).
+  { intros m Hm x Hx. pose proof (prov_valid _ _ _ _ (I _ _ (cget_In _ _ _ G))) as V. rewrite Hm in V.
+    destruct (validity_msg_bound _ _ _ V) as [Bt _]. specialize (Bt _ Hx).
+    pose proof (cast_secs_le (v_valid v * 1000)). lia. }
+  destruct (decrement_cases _ _ Hd) as [[-> _]|[-> _]]; eauto.
 Qed.
